@@ -263,6 +263,8 @@ class EnvCache:
     def get(self, cfg: dict):
         k = template_key(cfg)
         if k not in self.templates:
+            from .core import relieve_jit
+            relieve_jit()          # every new template brings new compiled programs; stay below vm.max_map_count
             self.templates[k] = build_env(cfg)
             return self.templates[k]
         return retarget(self.templates[k], cfg)
